@@ -623,15 +623,15 @@ class Runner:
         if inst is None or not m.readable(inst):
             return
         got = S["axi_rdata"]
-        exp = {v for v in t["allowed"] if v is not None}
-        if not exp:
-            return
+        if None in t["allowed"] or not t["allowed"]:
+            return      # the register had no determined value at some point of the window: anything goes
+        exp = set(t["allowed"])
         self.counters["reads_compared"] += 1
         if t.get("overlaps_write"):
             self.labels.add("read:overlaps_write_same_register")
         if got in exp:
             return
-        if got in t["allowed_alt"]:
+        if got is not None and got in t["allowed_alt"]:
             self.add({"kind": "write_mask", "reg": inst["what"], "cause": "strobe_ignored"},
                      f"clock {k}: read of 0x{t['addr']:x} ({inst['what']} at 0x{inst['off']:x}) returned {got:#010x}: the value "
                      f"an earlier partial-strobe write would leave if its byte strobes were ignored; strobed-bytes model "
@@ -720,7 +720,7 @@ class Runner:
                 self.counters["hw_values_compared"] += 1
                 if got == exp[name]:
                     continue
-                if got == alt.get(name):
+                if got is not None and got == alt.get(name):
                     self.add({"kind": "write_mask", "reg": inst["what"], "cause": "strobe_ignored"},
                              f"clock {k} ({why}): {self._role_kind(inst, role)} port {name} shows {got:#x} = the value if the byte strobes of an earlier "
                              f"partial write were ignored; strobed-bytes model {exp[name]:#x}")
